@@ -42,7 +42,7 @@ func c14genPlan(rt *rapid.T) c14plan {
 	for i := 0; i < n; i++ {
 		id++
 		c := rapid.IntRange(0, p.NClients-1).Draw(rt, fmt.Sprintf("c%d", i))
-		k := rapid.SampledFrom([]string{"getmsgs", "getmsgs", "biglist", "pm-victim", "pm-victim", "broadcast", "newsget", "userlist", "keepalive", "chat", "postboard", "clientinfo", "clientinfo", "invite", "fileinfo", "acct-stale-rename", "acct-create", "acct-create", "acct-delete"}).Draw(rt, fmt.Sprintf("k%d", i))
+		k := rapid.SampledFrom([]string{"getmsgs", "getmsgs", "biglist", "pm-victim", "pm-victim", "broadcast", "newsget", "userlist", "keepalive", "chat", "postboard", "clientinfo", "clientinfo", "invite", "fileinfo", "acct-stale-rename", "acct-create", "acct-create", "acct-delete", "invite-to-chat", "invite-to-chat", "chat-subject"}).Draw(rt, fmt.Sprintf("k%d", i))
 		t := hlref.Tran{ID: id}
 		big := func(label string) []byte {
 			return bytes.Repeat([]byte{byte('A' + i%26)}, rapid.SampledFrom([]int{100, 33000, 40000, 60000}).Draw(rt, label))
@@ -74,6 +74,10 @@ func c14genPlan(rt *rapid.T) c14plan {
 				fld(hlref.FUserLogin, hlref.Obfuscate([]byte("dup"))), sfld(hlref.FUserName, "n"), fld(hlref.FUserAccess, make([]byte, 8)), fld(hlref.FUserPassword, hlref.Obfuscate([]byte("p")))}))}
 		case "acct-delete":
 			t.Type, t.Fields = hlref.TranDeleteUser, []hlref.Field{fld(hlref.FUserLogin, hlref.Obfuscate([]byte("dup")))}
+		case "invite-to-chat": // answered to the requester, announced to a third user (the chat id is filled in when the plan runs)
+			t.Type, t.Fields = hlref.TranInviteToChat, []hlref.Field{fld(hlref.FUserID, hlref.BE16((c+2)%p.NClients+1)), fld(hlref.FChatID, []byte{0, 0, 0, 0})}
+		case "chat-subject":
+			t.Type, t.Fields = hlref.TranSetChatSubject, []hlref.Field{fld(hlref.FChatID, []byte{0, 0, 0, 0}), sfld(hlref.FChatSubject, "subject")}
 		case "keepalive":
 			t.Type = hlref.TranKeepAlive
 		case "chat":
@@ -170,8 +174,26 @@ func c14run(rt *rapid.T, p c14plan, sequential bool) (res c14result) {
 		for i := range sent {
 			sent[i] = map[uint32]bool{}
 		}
+		// a private chat of clients 0 and 1 for the requests that name a chat
+		var chatID []byte
+		if cr := cs[0].Request(hlref.TranInviteNewChat, fld(hlref.FUserID, hlref.BE16(2))); okReply(cr) {
+			chatID, _ = cr.Get(hlref.FChatID)
+			cs[1].Request(hlref.TranJoinChat, fld(hlref.FChatID, chatID))
+		} else {
+			rt.Fatalf("harness: chat fixture")
+		}
+		settle(time.Second)
+		for _, c := range cs {
+			c.Rest()
+		}
 		for _, r := range p.Reqs {
 			sent[r.Client][r.Tran.ID] = true
+			for i, f := range r.Tran.Fields {
+				if f.ID == hlref.FChatID {
+					r.Tran.Fields = append([]hlref.Field{}, r.Tran.Fields...)
+					r.Tran.Fields[i] = fld(hlref.FChatID, chatID)
+				}
+			}
 			cs[r.Client].SendAsync(r.Tran.Encode())
 			if sequential {
 				settle(5 * time.Second)
